@@ -376,10 +376,12 @@ static cocls::async<void> awaiting(World &w, int idx) {
 struct ManualWorld : World {
     using World::World;
 
-    void run() {
+    // one lifetime of a scheduler: executes steps from `k` up to (not including) the next Construct
+    std::size_t run(std::size_t k) {
         if (interval) gen.emplace(s->interval(std::chrono::seconds(interval), stops.get_token()));
-        for (std::size_t k = 0; k < sc.steps.size(); k++) {
+        for (; k < sc.steps.size(); k++) {
             const Step &st = sc.steps[k];
+            if (st.name == "Construct") break;
             std::map<int, std::string> expect;
             std::string out_bad;
             if (st.name == "Schedule") {
@@ -449,6 +451,7 @@ struct ManualWorld : World {
             if (!rep.check(k, project_common())) break;
         }
         teardown();
+        return k;
     }
 };
 
@@ -473,12 +476,15 @@ struct StartWorld : World, vt::Hooks {
     int nc = 1;
     std::vector<Co> cos;
     std::size_t pos = 0;         // next step to take
+    std::size_t first = 0;       // first step of this run
     bool aborting = false, destroying = false;
+    bool truncated = false;      // the scenario ended in the middle of a run (paths are cut at a maximal length)
     std::string phase = "active";
     std::map<int, std::string> expect;   // completions the step in progress must cause
 
-    StartWorld(const Scenario &sc_, Reporter &rep_) : World(sc_, rep_) {
+    StartWorld(const Scenario &sc_, Reporter &rep_, std::size_t pos_) : World(sc_, rep_), pos(pos_) {
         start_mode = true;
+        first = pos_;
         nc = (int) sc.hdr.at("nc").as_int(1);
         cos.resize((std::size_t) nc + 1);
     }
@@ -519,14 +525,14 @@ struct StartWorld : World, vt::Hooks {
     // compared, then the next step of the scenario is taken; the caller checks it is the right one.
     const Step *begin_event(const std::string &what) {
         if (aborting) return nullptr;
-        if (pos > 0) {
+        if (pos > first) {
             std::string bad = audit(expect);
             expect.clear();
             if (!bad.empty()) { rep.diverge(pos - 1, "effect differs from the specification:" + bad + " state=" + project().dump()); aborting = true; return nullptr; }
             if (!rep.check(pos - 1, project())) { aborting = true; return nullptr; }
         }
-        if (pos >= sc.steps.size()) {
-            rep.diverge(pos ? pos - 1 : 0, "the real execution goes on after the scenario ended: " + what);
+        if (pos >= sc.steps.size()) {   // the scenario is a prefix of a run: let the run finish unobserved
+            truncated = true;
             aborting = true;
             return nullptr;
         }
@@ -635,7 +641,7 @@ struct StartWorld : World, vt::Hooks {
         if (!aborting) {
             std::string bad = audit(expect);
             if (!bad.empty()) rep.diverge(pos - 1, "effect differs from the specification:" + bad);
-            else if (rep.check(pos - 1, project()) && pos < sc.steps.size())
+            else if (rep.check(pos - 1, project()) && pos < sc.steps.size() && sc.steps[pos].name != "Restart")
                 rep.diverge(pos, "the real execution ended, the scenario goes on");
         }
         destroying = true;
@@ -655,12 +661,29 @@ int main() {
         vt::where = sc.id.c_str();
         vt::guard_locks = true;
         alarm(60);   // watchdog only: a scenario takes microseconds
-        if (sc.hdr.at("mode").as_str("manual") == "start") {
-            StartWorld w(sc, rep);
-            w.run();
-        } else {
-            ManualWorld w(sc, rep);
-            w.run();
+        // a scenario spans several lifetimes: ... Destroy, Construct, ... / ... DestroyAfterStart, Restart, ...
+        bool start = sc.hdr.at("mode").as_str("manual") == "start";
+        std::size_t pos = 0;
+        while (pos < sc.steps.size() && !rep.failed()) {
+            if (start) {
+                StartWorld w(sc, rep, pos);
+                if (pos > 0) {   // the Restart step: a fresh world
+                    if (sc.steps[pos].name != "Restart") { rep.error(pos, "Restart expected"); break; }
+                    if (!rep.check(pos, w.project())) break;
+                    w.pos = w.first = pos + 1;
+                    if (w.pos >= sc.steps.size()) break;
+                }
+                w.run();
+                pos = w.pos;
+                if (w.truncated) break;
+            } else {
+                ManualWorld w(sc, rep);
+                if (pos > 0) {   // the Construct step: a fresh world
+                    if (!rep.check(pos, w.project_common())) break;
+                    pos++;
+                }
+                pos = w.run(pos);
+            }
         }
         alarm(0);
         vt::guard_locks = false;
